@@ -47,11 +47,13 @@ Definition starting_sub_multiple (lg_target lg_min lg_rf : N) : N :=
   else if lg_rf =? 0 then lg_target
   else ((lg_target - lg_min) mod lg_rf) + lg_min.
 
-(* starting_theta_from_sampling_probability: (MAX_THETA as f64 * p as f64) as u64 *)
+(* starting_theta_from_sampling_probability: ((MAX_THETA as f64 * p as f64) as u64).max(1)
+   (the repaired code: /repo "fix: theta sketch built with a sampling probability below 2^-63 started with theta = 0") *)
 Definition starting_theta (pbits : Z) : N :=
   let p := float_of_bits pbits in
   if PrimFloat.ltb p 1%float
-  then zN (Z_of_float_trunc_sat 0 U64_MAX (PrimFloat.mul (float_of_Z63 (Nz MAX_THETA)) p))
+  then N.max (zN (Z_of_float_trunc_sat 0 U64_MAX (PrimFloat.mul (float_of_Z63 (Nz MAX_THETA)) p)))
+             (lit GenTheta.LIT_starting_theta_from_sampling_probability 0)
   else MAX_THETA.
 
 Definition lg_max (c : tcfg) : N := c_lg_nom c + 1.
